@@ -47,6 +47,9 @@ structure ModCfg where
   uri : Option String         -- HasIO: automatic communicator
   scan : List Name            -- Pinata: names of the modules scanModules yields
   delay : Nat                 -- duration of the first poll
+  writeFail : List (String × String) := []   -- start-up faults: `write_<p>` raises an exception of that class
+  readsFail : Option String := none          -- `initialReads` raises an exception of that class
+  pollFail : Option String := none           -- the first poll raises an exception of that class
 deriving Repr, Inhabited
 
 structure Cfg where
@@ -58,6 +61,8 @@ inductive Ev where
   | early (m : Name) | init (m : Name) | get (u : Name) (a : String) (d : Name)
   | start (m : Name) | thread (t : Name)
   | write (m : Name) (p : String) | firstpoll (m : Name) | rounddone (t : Name)
+  | initread (m : Name)       -- `initialReads` of `m` is entered
+  | comfail (m : Name)        -- the environment: a communication failure is raised inside `initialReads` / a poll of `m`
   | deadline | timeout (t : Name) | ready | exit
   | shutdownbegin | stopPoll (m : Name) | shutdown (m : Name)
   | latepoll (m : Name)       -- observed only: a poll after some module was shut down
@@ -302,11 +307,98 @@ def startup (cfg : Cfg) (fuel : Nat) : St :=
 
 /-! ### poll thread prologue and the start events -/
 
-/-- what the poll thread of `t` does before it enters its loop (modulebase.py:726-749) -/
+/-- `SECoPError` and its subclasses among the exception classes the fault injection raises (frappy/errors.py) -/
+def isSecop (cls : String) : Bool :=
+  cls == "HardwareError" || cls == "CommunicationFailedError" || cls == "SilentCommunicationFailedError"
+
+/-- a block of code: the events it logs and the exception (class) that leaves it, if any -/
+abbrev Block := List Ev × Option String
+
+/-- statements in sequence: an exception leaving one of them skips the rest -/
+def blocks : List Block → Block
+  | [] => ([], none)
+  | (evs, some e) :: _ => (evs, some e)
+  | (evs, none) :: rest => (evs ++ (blocks rest).1, (blocks rest).2)
+
+/-- body of the `for pname in list(self.writeDict)` loop of `writeInitParams` (modulebase.py:846-862): the value is
+popped and `write_<p>` is called inside `try`; a `SECoPError` is logged (`except SECoPError`), any other exception is
+logged with its traceback (`except Exception`); in both arms nothing leaves the loop body -/
+def writeOne (c : ModCfg) (p : String) : Block :=
+  match c.writeFail.lookup p with
+  | none => ([Ev.write c.name p], none)                 -- wfunc(value) returns
+  | some cls =>
+    if isSecop cls then ([Ev.write c.name p], none)     -- except SECoPError as e: self.log.error / debug
+    else ([Ev.write c.name p], none)                    -- except Exception: self.log.error(formatException())
+
+/-- `Module.writeInitParams` (modulebase.py:839-862) of the module object `c`, for every outcome of its `write_` methods -/
+def writeInitParams (c : ModCfg) : Block := blocks (c.writes.map (writeOne c))
+
+/-- `CommunicationFailedError` and its subclasses -/
+def isComm (cls : String) : Bool := cls == "CommunicationFailedError" || cls == "SilentCommunicationFailedError"
+
+/-- `mobj.initialReads()` inside its `try` (modulebase.py:764-773): a communication failure is re-raised (it ends the
+start-up sequence), any other exception is logged -/
+def initialReadsOne (c : ModCfg) : Block :=
+  match c.readsFail with
+  | none => ([Ev.initread c.name], none)
+  | some cls =>
+    if isComm cls then ([Ev.initread c.name, Ev.comfail c.name], some cls)     -- except CommunicationFailedError: raise
+    else ([Ev.initread c.name], none)                                          -- except Exception: log
+
+/-- `callPollFunc(rfunc, raise_com_failed)` for the first poll of `c` (modulebase.py:694-716): every exception is
+logged; a communication failure is re-raised when `raise_com_failed` -/
+def firstPollOne (c : ModCfg) (raiseComFailed : Bool) : Block :=
+  match c.pollFail with
+  | none => ([Ev.firstpoll c.name], none)
+  | some cls =>
+    if isComm cls then ([Ev.firstpoll c.name, Ev.comfail c.name], if raiseComFailed then some cls else none)
+    else ([Ev.firstpoll c.name], none)
+
+/-- the module object `m` of the node -/
+def objOf (st : St) (m : Name) : ModCfg := { cfgOf st m with name := m }
+
+/-- outcome of a loop of the start-up sequence: the events, and — when a communication failure ended it — the members
+that were not reached -/
+structure LoopRes where
+  evs : List Ev
+  aborted : Option (List Name)
+deriving Repr
+
+/-- `for mobj in modules: mobj.writeInitParams(); mobj.initialReads()` (modulebase.py:761-773) -/
+def initLoop (st : St) : List Name → LoopRes
+  | [] => ⟨[], none⟩
+  | m :: ms =>
+    let w := (writeInitParams (objOf st m)).1
+    match initialReadsOne (objOf st m) with
+    | (evs, some _) => ⟨w ++ evs, some ms⟩
+    | (evs, none) => ⟨w ++ evs ++ (initLoop st ms).evs, (initLoop st ms).aborted⟩
+
+/-- `for m in polled_modules: … callPollFunc(rfunc, raise_com_failed=True)` (modulebase.py:775-777) -/
+def pollLoop (st : St) : List Name → LoopRes
+  | [] => ⟨[], none⟩
+  | m :: ms =>
+    match firstPollOne (objOf st m) true with
+    | (evs, some _) => ⟨evs, some ms⟩
+    | (evs, none) => ⟨evs ++ (pollLoop st ms).evs, (pollLoop st ms).aborted⟩
+
+/-- the first polls the main loop of the poll thread does for modules the start-up sequence did not reach
+(`callPollFunc(rfunc)`: nothing is re-raised) -/
+def latePolls (st : St) (ms : List Name) : List Ev := ms.flatMap (fun m => (firstPollOne (objOf st m) false).1)
+
+/-- what the poll thread of `t` does up to its first polls (modulebase.py:726-800): the start-up sequence — configured
+values and initial reads of every member, first polls of the polled members — and the report that the first round is
+done.  A communication failure ends the sequence at once (`except CommunicationFailedError`): the round is reported done
+and the thread goes on to its main loop, which polls the polled members that have not been polled yet — the
+`writeInitParams` and `initialReads` of the members not reached are never made up for (recorded finding of C15). -/
 def prologue (st : St) (t : Name) : List Ev :=
   let ms := members st t
-  ms.flatMap (fun m => (cfgOf st m).writes.map (Ev.write m)) ++
-  (ms.filter (fun m => (cfgOf st m).poll)).map Ev.firstpoll ++ [Ev.rounddone t]
+  let polled := ms.filter (fun m => (cfgOf st m).poll)
+  match (initLoop st ms).aborted with
+  | some _ => (initLoop st ms).evs ++ [Ev.rounddone t] ++ latePolls st polled
+  | none =>
+    match (pollLoop st polled).aborted with
+    | some rest => (initLoop st ms).evs ++ (pollLoop st polled).evs ++ [Ev.rounddone t] ++ latePolls st rest
+    | none => (initLoop st ms).evs ++ (pollLoop st polled).evs ++ [Ev.rounddone t]
 
 def threadsOf (st : St) : List Name := st.modules.filter (fun m => !(members st m).isEmpty)
 
